@@ -59,6 +59,17 @@ theorem failed_create_no_trace (env : Env) (ctx : Ctx) (addr : Addr) (value gas 
         · rfl
         · simp_all [Out.failed]
 
+/-- Both together, for frames that run program trees: every frame of every program, at every depth, that ends in
+    an error or a revert leaves the world as it found it (a creation keeps at most the creator's nonce bump). -/
+theorem failed_frame_no_trace (env : Env) (ctx : Ctx) (kind : Kind) (addr : Addr) (value gas : Nat) (w : World)
+    (tr : List Ev) (body : Prog) :
+    ((enterCall env ctx kind addr value gas w tr (exec env body)).out.failed = true →
+      (enterCall env ctx kind addr value gas w tr (exec env body)).w = w) ∧
+    ((enterCreate env ctx addr value gas w tr (exec env body)).out.failed = true →
+      (enterCreate env ctx addr value gas w tr (exec env body)).w = w ∨
+      (enterCreate env ctx addr value gas w tr (exec env body)).w = bumpNonce w ctx.self) :=
+  ⟨failed_call_no_trace env ctx kind addr value gas w tr _, failed_create_no_trace env ctx addr value gas w tr _⟩
+
 /-- The failures decided before the snapshot (call depth, insufficient balance) hand back all the gas. -/
 theorem early_failure_keeps_gas (env : Env) (ctx : Ctx) (kind : Kind) (addr : Addr) (value gas : Nat) (w : World)
     (tr : List Ev) (run : Ctx → Nat → World → List Ev → Res)
